@@ -279,6 +279,28 @@ def answer (line : String) : String :=
       | some bs => showDec (decode ty bs)
       | none => "bad-op"
     | _ => "bad-op"
+  | "decio" :: rest =>
+    match parseTy rest with
+    | some (ty, [h]) =>
+      match parseHex h with
+      | some bs =>
+        match run ioInput (Impl.decodeP ty) bs with
+        | (.ok v, r) => "ok " ++ showVal v ++ " " ++ toString r.length
+        | (.err, _) => "err"
+        | (.panic, _) => "panic"
+      | none => "bad-op"
+    | _ => "bad-op"
+  | "decbc" :: rest =>
+    match parseTy rest with
+    | some (ty, [h]) =>
+      match parseHex h with
+      | some bs =>
+        match run bytesCursorInput (Impl.decodeP ty) bs with
+        | (.ok v, r) => "ok " ++ showVal v ++ " " ++ toString r.length
+        | (.err, _) => "err"
+        | (.panic, _) => "panic"
+      | none => "bad-op"
+    | _ => "bad-op"
   | "decall" :: rest =>
     match parseTy rest with
     | some (ty, [h]) =>
